@@ -469,6 +469,10 @@ class Rinex2Parser(ChainParser):
         # Reject empty lines
         line["year"] = line["year"].strip()
         if (not line["year"].isnumeric()) and (not line["sat_list"]):
+            # A blank line is an observation line with only missing values as long as satellites of the epoch are
+            # still to be read (e.g. continuation line of a satellite without the 6th to 10th observation type)
+            if cache.get("sat_list"):
+                self._parse_observation({f"obs_{idx}": "" for idx in range(1, 6)}, cache)
             return
 
         # Reject comment lines
